@@ -249,6 +249,131 @@ pub fn judge(h: &[u8], is_v1: bool, rec: &mut Recorder) {
     }
 }
 
+/// A server loop (examples/server.rs) over several connections that share ONE receive buffer:
+/// per connection a stream (valid v1 / v2 header or a broken one, followed by payload) arrives in
+/// scripted reads; after each read the auto-detecting parser looks at the buffer. The verdict
+/// trace of a valid connection must be incomplete* ; Ok(header) at the first read that completes
+/// the header; and every single verdict - valid connection or not - must equal the verdict on a
+/// fresh copy of the same bytes elsewhere in memory (the parser is a function of the bytes, not
+/// of what the buffer held before).
+fn server_loop(idx: u64, seed: u64, rec: &mut Recorder) {
+    let mut rng = Rng::for_case(seed, stream_id("c05-server"), idx);
+    let mut buf: Vec<u8> = Vec::with_capacity(8192);
+    let base = buf.as_ptr() as usize;
+    let conns = rng.range(3, 7);
+    let mut transcript: Vec<String> = Vec::new();
+    let mut nontrivial = false;
+    for c in 0..conns {
+        // the stream of this connection
+        let (stream_bytes, header_len): (Vec<u8>, Option<usize>) = match rng.below(8) {
+            0..=2 => {
+                let mut h = valid_ascii_body(&mut rng).into_bytes();
+                h.extend_from_slice(b"\r\n");
+                let n = h.len();
+                let ok = matches!(spec::v1::v1_ref(&h), spec::v1::V1Ref::Accept(ref a) if a.header_len == n);
+                let ts = trailers();
+                let t: &Vec<u8> = rng.pick(&ts[..]);
+                h.extend_from_slice(t.as_slice());
+                (h, if ok { Some(n) } else { None })
+            }
+            3..=5 => {
+                let mut b = Vec::new();
+                let (vc, fp) = spec::v2::valid_ctl(rng.below(24));
+                spec::v2::valid_header_budget(&mut rng, &mut b, vc, fp, Some(200));
+                let n = b.len();
+                let ok = matches!(spec::v2::v2_ref(&b), spec::v2::V2Ref::Ok { total, .. } if total == n);
+                let ts = trailers();
+                let t: &Vec<u8> = rng.pick(&ts[..]);
+                b.extend_from_slice(t.as_slice());
+                (b, if ok { Some(n) } else { None })
+            }
+            6 => {
+                // a peer that leaves in the middle of a header: the stream is a proper prefix
+                let mut h = valid_ascii_body(&mut rng).into_bytes();
+                h.extend_from_slice(b"\r\n");
+                let cut = rng.below(h.len() as u64) as usize;
+                h.truncate(cut);
+                (h, None)
+            }
+            _ => {
+                let names = ["v1-field", "v1-eol", "v1-mut", "v1-len"];
+                (spec::v1gen::v1_case(names[rng.below(4) as usize], idx * 8 + c, seed), None)
+            }
+        };
+        if stream_bytes.is_empty() || stream_bytes.len() > 8000 {
+            continue;
+        }
+        // reads
+        let total = stream_bytes.len();
+        let mut sizes = Vec::new();
+        let mut at = 0usize;
+        while at < total {
+            let step = match rng.below(5) {
+                0 => 1,
+                1 => rng.range(1, 8) as usize,
+                2 => rng.range(1, 40) as usize,
+                3 => header_len.map(|n| n.saturating_sub(at).max(1)).unwrap_or(total),
+                _ => rng.range(1, total as u64) as usize,
+            };
+            at = (at + step).min(total);
+            sizes.push(at);
+        }
+        buf.clear();
+        let mut verdict_at: Option<usize> = None;
+        for &n in &sizes {
+            buf.extend_from_slice(&stream_bytes[buf.len()..n]);
+            debug_assert_eq!(buf.as_ptr() as usize, base);
+            let r = auto_parse(&buf);
+            let fresh = stream_bytes[..n].to_vec();
+            let r2 = auto_parse(&fresh);
+            rec.events(2);
+            if r != r2 {
+                nontrivial = true;
+                rec.violation(
+                    "reused-buffer-differs:auto",
+                    format!("server:{}:{}", idx, seed),
+                    "server-loop".into(),
+                    format!("connection {} of a server loop with one receive buffer: after {} bytes {:?} the verdict is {}, on a fresh copy of the same bytes it is {}; earlier connections: {:?}", c, n, show(&buf, 100), r.class(), r2.class(), transcript),
+                );
+                return;
+            }
+            if !r.incomplete() {
+                verdict_at = Some(n);
+                if let Some(hl) = header_len {
+                    nontrivial = true;
+                    let first_enough = sizes.iter().copied().find(|&m| m >= hl).unwrap_or(total);
+                    let good = r.is_ok() && n == first_enough;
+                    if !good {
+                        rec.violation(
+                            "receiver-trace:auto",
+                            format!("server:{}:{}", idx, seed),
+                            "server-loop".into(),
+                            format!("connection {} of a server loop: stream {:?} with a valid header of {} bytes delivered as cumulative sizes {:?}: the receiver stopped with {} at {} bytes, expected Ok(header) at {}", c, show(&stream_bytes, 100), hl, &sizes[..sizes.len().min(16)], r.class(), n, first_enough),
+                        );
+                        return;
+                    }
+                }
+                break;
+            }
+        }
+        if header_len.is_some() && verdict_at.is_none() {
+            rec.violation(
+                "receiver-trace:auto",
+                format!("server:{}:{}", idx, seed),
+                "server-loop".into(),
+                format!("connection {} of a server loop: the whole stream {:?} (valid header of {:?} bytes) was delivered and the verdict is still incomplete", c, show(&stream_bytes, 100), header_len),
+            );
+            return;
+        }
+        transcript.push(format!("{}{} bytes in {} reads -> {:?}", if header_len.is_some() { "valid " } else { "" }, total, sizes.len(), verdict_at));
+        if transcript.len() > 6 {
+            transcript.remove(0);
+        }
+    }
+    rec.case(spec::rng::mix(idx ^ seed.rotate_left(17)), nontrivial);
+    rec.class("server-loop|connections-sharing-one-buffer", || format!("{:?}", transcript));
+}
+
 impl Monitor for C05 {
     fn id(&self) -> &'static str {
         "C05"
@@ -257,7 +382,7 @@ impl Monitor for C05 {
         "cases = complete valid headers (v1: US-ASCII TCP4/TCP6/UNKNOWN lines in every spelling; v2: every control pair, family and TLV-section kind up to 65535 bytes) accepted by both the oracle and the implementation; for each, every prefix length (all of them up to 300 bytes, a ladder plus 48 random cuts beyond) is parsed through the dedicated byte/text entry points and HeaderResult::parse and must be flagged incomplete; then the header plus a payload is fed to a simulated receiver byte-at-a-time, in 6 two-read splits and 8 random multi-read splits, whose verdict trace must be incomplete*;Ok(header); non-trivial = header accepted by oracle and implementation; distinct = distinct headers"
     }
     fn streams(&self, tier: Tier) -> Vec<StreamSpec> {
-        vec![stream("c05-v1", tier.n(20, 120_000, 4_000_000)), stream("c05-v2", tier.n(10, 60_000, 2_000_000)), stream("c05-flags", tier.n(50, 200_000, 20_000_000))]
+        vec![stream("c05-v1", tier.n(20, 120_000, 4_000_000)), stream("c05-v2", tier.n(10, 60_000, 2_000_000)), stream("c05-flags", tier.n(50, 200_000, 20_000_000)), stream("c05-server", tier.n(5, 40_000, 2_000_000))]
     }
     fn run_case(&self, stream: &str, idx: u64, seed: u64, rec: &mut Recorder) {
         let mut rng = Rng::for_case(seed, stream_id(stream), idx);
@@ -272,6 +397,7 @@ impl Monitor for C05 {
                 valid_header(&mut rng, &mut b);
                 judge(&b, false, rec);
             }
+            "c05-server" => server_loop(idx, seed, rec),
             _ => {
                 // the flag laws on arbitrary (mostly invalid) inputs
                 let x = if rng.coin() {
@@ -298,6 +424,13 @@ impl Monitor for C05 {
         vec!["oracle:v1-header", "oracle:v2-header"]
     }
     fn replay(&self, case: &str, rec: &mut Recorder) {
+        if let Some(rest) = case.strip_prefix("server:") {
+            let mut it = rest.split(':');
+            if let (Some(Ok(i)), Some(Ok(sd))) = (it.next().map(|x| x.parse::<u64>()), it.next().map(|x| x.parse::<u64>())) {
+                server_loop(i, sd, rec);
+            }
+            return;
+        }
         if let Some((k, bytes)) = dec_case(case) {
             match k {
                 "v1" => judge(&bytes, true, rec),
